@@ -498,28 +498,27 @@ theorem check_sound_calls_partial (cfg : CheckCfg) (c : Spec.SCfg) (henv : EnvCo
   rw [hn'] at hev
   exact hev ctx trivial s
 
-/-- … and for whole programs (`Spec.run`: evaluate, then the conversion the compiler appends for
-`AsInt64` / `AsFloat64`): under `AsBool` the result is exactly a `bool`, under `AsInt64` exactly an
-`int64`, under `AsFloat64` exactly a `float64`, or the run fails with a value-dependent error (`τ` scalar: not an
-`interface{}`-typed result, which the directives also admit). -/
-theorem as_kind_exact_collections_partial (cfg : CheckCfg) (c : Spec.SCfg) (henv : EnvConforms2 cfg c.env)
-    (n n' : Node) (τ : OTy) (hfrag : inFrag2 false n = true) (hstatic : typed2 cfg [] n = true)
-    (h : check cfg n = .ok n' τ) (hτs : ScalarT τ) :
+/-- from "the evaluation yields a value of the accepted scalar type" to the result directives for whole
+programs (`Spec.run`: evaluate, then the conversion the compiler appends for `AsInt64` / `AsFloat64`) -/
+private theorem as_kind_of_eval (E : ErrClass → Prop) (cfg : CheckCfg) (c : Spec.SCfg) (n n' : Node) (τ : OTy)
+    (h : check cfg n = .ok n' τ) (hτs : ScalarT τ)
+    (hev0 : match (Spec.eval c [] n' {}).1 with
+      | .ok v => ValOfK v τ.kind
+      | .error e => E e) :
     (cfg.expect = .bool → match (Spec.run c none n').1 with
-      | .ok v => ∃ b, v = .bool b | .error e => ValueDep e) ∧
+      | .ok v => ∃ b, v = .bool b | .error e => E e) ∧
     (cfg.expect = .int64 → match (Spec.run c (some 0) n').1 with
-      | .ok v => ∃ x, v = .int .int64 x | .error e => ValueDep e) ∧
+      | .ok v => ∃ x, v = .int .int64 x | .error e => E e) ∧
     (cfg.expect = .float64 → match (Spec.run c (some 1) n').1 with
-      | .ok v => ∃ x, v = .f64 x | .error e => ValueDep e) := by
+      | .ok v => ∃ x, v = .f64 x | .error e => E e) := by
   have hk := as_kind_exact cfg n n' τ h
   have key : ∀ k, τ.kind = k →
       match (Spec.eval c [] n' {}).1 with
       | .ok v => ValOfK v k
-      | .error e => ValueDep e := by
+      | .error e => E e := by
     intro k hkk
-    have := check_sound_collections_partial cfg c henv n n' τ (.sc τ.kind) hfrag hstatic h (vtyOf_scalar hτs) [] {}
-    rw [hkk] at this
-    exact this
+    rw [hkk] at hev0
+    exact hev0
   refine ⟨?_, ?_, ?_⟩
   · intro he
     have hev := key .bool (hk.1 he)
@@ -559,6 +558,36 @@ theorem as_kind_exact_collections_partial (cfg : CheckCfg) (c : Spec.SCfg) (henv
       obtain ⟨x, hx⟩ := conv_num .float64 hv
       simp only [castV, toFloat64Val, numOf_kind hv, hx]
       exact ⟨x, rfl⟩
+
+/-- … and for whole programs (`Spec.run`: evaluate, then the conversion the compiler appends for
+`AsInt64` / `AsFloat64`): under `AsBool` the result is exactly a `bool`, under `AsInt64` exactly an
+`int64`, under `AsFloat64` exactly a `float64`, or the run fails with a value-dependent error (`τ` scalar: not an
+`interface{}`-typed result, which the directives also admit). -/
+theorem as_kind_exact_collections_partial (cfg : CheckCfg) (c : Spec.SCfg) (henv : EnvConforms2 cfg c.env)
+    (n n' : Node) (τ : OTy) (hfrag : inFrag2 false n = true) (hstatic : typed2 cfg [] n = true)
+    (h : check cfg n = .ok n' τ) (hτs : ScalarT τ) :
+    (cfg.expect = .bool → match (Spec.run c none n').1 with
+      | .ok v => ∃ b, v = .bool b | .error e => ValueDep e) ∧
+    (cfg.expect = .int64 → match (Spec.run c (some 0) n').1 with
+      | .ok v => ∃ x, v = .int .int64 x | .error e => ValueDep e) ∧
+    (cfg.expect = .float64 → match (Spec.run c (some 1) n').1 with
+      | .ok v => ∃ x, v = .f64 x | .error e => ValueDep e) :=
+  as_kind_of_eval ValueDep cfg c n n' τ h hτs
+    (check_sound_collections_partial cfg c henv n n' τ (.sc τ.kind) hfrag hstatic h (vtyOf_scalar hτs) [] {})
+
+/-- the same with calls of environment functions (hypothesis `WorldConforms`) -/
+theorem as_kind_exact_calls_partial (cfg : CheckCfg) (c : Spec.SCfg) (henv : EnvConforms2 cfg c.env)
+    (hworld : WorldConforms (fun e => ValueDep e ∨ e = .call) cfg c)
+    (n n' : Node) (τ : OTy) (hfrag : inFrag2 true n = true) (hstatic : typed2 cfg [] n = true)
+    (h : check cfg n = .ok n' τ) (hτs : ScalarT τ) :
+    (cfg.expect = .bool → match (Spec.run c none n').1 with
+      | .ok v => ∃ b, v = .bool b | .error e => ValueDep e ∨ e = .call) ∧
+    (cfg.expect = .int64 → match (Spec.run c (some 0) n').1 with
+      | .ok v => ∃ x, v = .int .int64 x | .error e => ValueDep e ∨ e = .call) ∧
+    (cfg.expect = .float64 → match (Spec.run c (some 1) n').1 with
+      | .ok v => ∃ x, v = .f64 x | .error e => ValueDep e ∨ e = .call) :=
+  as_kind_of_eval (fun e => ValueDep e ∨ e = .call) cfg c n n' τ h hτs
+    (check_sound_calls_partial cfg c henv hworld n n' τ (.sc τ.kind) hfrag hstatic h (vtyOf_scalar hτs) [] {})
 
 -- the hypotheses are satisfiable and not vacuous
 example : WellTyped (cfgWith .repaired) (.binary {} "+" (ident "I") (.int {} 2)) ∧
